@@ -55,6 +55,9 @@ type c10Proc struct {
 	copy  atomic.Pointer[string]
 	other atomic.Int32 // OnEnd calls for other spans (children)
 	start atomic.Int32
+	// reenter, when set, is called from OnEnd of the span under test: a processor whose export path
+	// is itself instrumented starts and ends a span on the same provider from inside OnEnd
+	reenter func()
 }
 
 func (p *c10Proc) OnStart(context.Context, ReadWriteSpan) { p.start.Add(1) }
@@ -70,6 +73,9 @@ func (p *c10Proc) OnEnd(s ReadOnlySpan) {
 	c := c10Render(s)
 	p.snap.Store(&s)
 	p.copy.Store(&c)
+	if p.reenter != nil {
+		p.reenter()
+	}
 }
 func (p *c10Proc) Shutdown(context.Context) error {
 	if p.yield {
@@ -141,8 +147,17 @@ func c10Body(sc c10Scn, tracing bool, res *string) func(x *sched.Exec) {
 		if sc.extra == "regRace" {
 			p1.yield = true
 		}
+		if sc.extra == "reentrant" {
+			opts = append(opts, WithSpanProcessor(p2))
+		}
 		tp := NewTracerProvider(opts...)
 		tr := tp.Tracer("t")
+		if sc.extra == "reentrant" {
+			p1.reenter = func() {
+				_, c := tr.Start(context.Background(), "child")
+				c.End()
+			}
+		}
 		ctx, sp := tr.Start(context.Background(), "s")
 		rs := sp.(*recordingSpan)
 		if sc.atLimit {
@@ -219,6 +234,10 @@ func c10Body(sc c10Scn, tracing bool, res *string) func(x *sched.Exec) {
 						}
 					case "Unreg1":
 						tp.UnregisterSpanProcessor(p1)
+					case "Unreg2":
+						tp.UnregisterSpanProcessor(p2)
+					case "ShutdownTP":
+						_ = tp.Shutdown(context.Background())
 					case "ChildDropped": // a child the sampler drops still is a child
 						endReturnedBefore := firstEndReturned.Load() != 0
 						if !endReturnedBefore {
@@ -290,7 +309,14 @@ func c10Body(sc c10Scn, tracing bool, res *string) func(x *sched.Exec) {
 			*res = fmt.Sprintf("p1=%d p2=%d p3=%d", p1.ends.Load(), p2.ends.Load(), p3.ends.Load())
 			return
 		}
-		if n := p1.ends.Load(); n != 1 {
+		tpShutdown := false
+		for _, t := range sc.threads {
+			for _, op := range t {
+				tpShutdown = tpShutdown || op == "ShutdownTP"
+			}
+		}
+		// a provider Shutdown that overtakes the End has already let go of the processor: at most once then
+		if n := p1.ends.Load(); n != 1 && !(tpShutdown && n == 0) {
 			x.Fail("C10|span-delivered-not-exactly-once", "span delivered to its processor %d times (End called %d times)", n, endCalls.Load())
 		}
 		if n := p2.ends.Load(); n > 1 {
@@ -383,6 +409,8 @@ func c10Jobs(thorough, race bool) []c10Job {
 		{"O-registers-racing-unregister", [][]string{{"Unreg1"}, {"Register"}, {"Register3"}}, false, "regRace"},
 		{"P-sampler-reusing-its-attribute-slice", [][]string{{"Attr", "End"}, {"Span2"}}, false, "reuseSampler"},
 		{"Q-atlimit-attr-vs-attributes-of-another-span", [][]string{{"Attr", "End"}, {"Span2Same"}}, true, ""},
+		{"R-onend-ends-a-span-itself-vs-unregister-of-another-processor", [][]string{{"End"}, {"Unreg2"}}, false, "reentrant"},
+		{"S-onend-ends-a-span-itself-vs-provider-shutdown", [][]string{{"End", "IsRec"}, {"ShutdownTP"}}, false, "reentrant"},
 	}
 	p := 3
 	if thorough {
